@@ -1,12 +1,16 @@
 /* Environment contract for C17 (assumed, listed in the evidence): the C library / kernel may
- * return anything.  Values are published through globals that the Kani harness makes symbolic. */
+ * return anything.  Values are published through globals that the Kani harness makes symbolic.
+ * waitpid may be called several times (retry loops): call i gets the i-th prepared outcome. */
 #include <stddef.h>
 #include <stdint.h>
 
-int verif_fread_result;      /* number of items fread returns (harness constrains to 0 or 1) */
-int verif_wait_status;       /* status word waitpid stores */
-int verif_waitpid_result;    /* return value of waitpid */
-int verif_waitpid_called;
+#define VERIF_MAX_CALLS 4
+int verif_fread_result;                 /* number of items fread returns (0 or 1) */
+int verif_wp_ret[VERIF_MAX_CALLS];      /* return value of the i-th waitpid call */
+int verif_wp_status[VERIF_MAX_CALLS];   /* status word stored by the i-th call when it succeeds */
+int verif_wp_errno[VERIF_MAX_CALLS];    /* errno set by the i-th call when it fails */
+int verif_wp_calls;                     /* number of waitpid calls made */
+int verif_errno;
 int verif_close_calls;
 
 typedef struct verif_FILE { int fd; } verif_FILE;
@@ -21,7 +25,9 @@ size_t fread(void *ptr, size_t size, size_t n, void *stream) {
 int close(int fd) { (void)fd; verif_close_calls++; return 0; }
 int waitpid(int pid, int *status, int options) {
     (void)pid; (void)options;
-    verif_waitpid_called = 1;
-    if (verif_waitpid_result >= 0) { *status = verif_wait_status; }
-    return verif_waitpid_result;
+    int i = verif_wp_calls < VERIF_MAX_CALLS ? verif_wp_calls : VERIF_MAX_CALLS - 1;
+    verif_wp_calls++;
+    if (verif_wp_ret[i] >= 0) { *status = verif_wp_status[i]; } else { verif_errno = verif_wp_errno[i]; }
+    return verif_wp_ret[i];
 }
+int *__errno_location(void) { return &verif_errno; }
